@@ -1,4 +1,5 @@
 """C34 - name lookup: region layout, id -> name, name -> id (the engine side)."""
+import os
 from vlib.report import Check
 from vlib.cast import load_tu
 from contracts import name
@@ -6,8 +7,117 @@ from contracts import name
 F = 'src/engine/engine_name.c'
 
 
+NATIVE = r"""
+#include "engine/engine_io.h"
+static mjModel* vf_m = NULL;
+static int sidx(const char* which) { int idx = -1, k = 0;
+#define X(name) if (!strcmp(#name, which)) idx = k; k++;
+  MJMODEL_SIZES
+#undef X
+  return idx; }
+// a model with nb bodies, ng geoms, ns sites and a names buffer of nn chars (names and the hash map are filled by the caller)
+int vf_make(int nb, int ng, int ns, int nn) {
+  mjtSize s[84] = {0};
+  s[sidx("nbody")] = nb; s[sidx("ngeom")] = ng; s[sidx("nsite")] = ns; s[sidx("nnames")] = nn;
+  vf_m = NULL;
+  mj_makeModel(&vf_m,
+   s[0],s[1],s[2],s[3],s[4],s[5],s[6],s[7],s[8],s[9],s[10],s[11],s[12],s[13],s[14],s[15],s[16],s[17],s[18],s[19],s[20],
+   s[21],s[22],s[23],s[24],s[25],s[26],s[27],s[28],s[29],s[30],s[31],s[32],s[33],s[34],s[35],s[36],s[37],s[38],s[39],s[40],
+   s[41],s[42],s[43],s[44],s[45],s[46],s[47],s[48],s[49],s[50],s[51],s[52],s[53],s[54],s[55],s[56],s[57],s[58],s[59],s[60],
+   s[61],s[62],s[63],s[64],s[65],s[66],s[67],s[68],s[69],s[70],s[71],s[72],s[73],s[74],s[75],s[76],s[77],s[78],s[79],s[80],
+   s[81],s[82],s[83]);
+  return vf_m != NULL;
+}
+char* vf_names(void) { return vf_m->names; }
+int* vf_map(void) { return vf_m->names_map; }
+int vf_nmap(void) { return (int) vf_m->nnames_map; }
+int* vf_adr(int type) { return type == mjOBJ_BODY ? vf_m->name_bodyadr : (type == mjOBJ_GEOM ? vf_m->name_geomadr : vf_m->name_siteadr); }
+unsigned long long vf_hash(const char* s, unsigned long long n) { return mj_hashString(s, n); }
+int vf_name2id(int type, const char* name) { return mj_name2id(vf_m, type, name); }
+const char* vf_id2name(int type, int id) { return mj_id2name(vf_m, type, id); }
+"""
+
+
+def native_contract_run(open_obligations=()):
+    """the real compiled lookup on small models whose name table is built the way mjCModel::CopyNames builds it
+    (regions in construction order, linear probing from the real mj_hashString): name2id(id2name(i)) == i, NULL exactly
+    for unnamed objects and bad ids, -1 for strings that name nothing (prefixes, extensions, names of other types).  Bounded."""
+    import ctypes
+    import random
+    from vlib import native
+    lib, d = native.build_so('c34', ['src/engine/engine_name.c', 'src/engine/engine_io.c', 'src/engine/engine_util_errmem.c', 'src/engine/engine_init.c',
+                                     'src/engine/engine_util_blas.c'], 'int mj_version(void) { return mjVERSION_HEADER; }\n' + NATIVE, define_err=False)
+    try:
+        lib.vf_names.restype = ctypes.POINTER(ctypes.c_char)
+        lib.vf_map.restype = ctypes.POINTER(ctypes.c_int)
+        lib.vf_adr.restype = ctypes.POINTER(ctypes.c_int)
+        lib.vf_hash.restype = ctypes.c_ulonglong
+        lib.vf_hash.argtypes = [ctypes.c_char_p, ctypes.c_ulonglong]
+        lib.vf_id2name.restype = ctypes.c_char_p
+        lib.vf_name2id.argtypes = [ctypes.c_int, ctypes.c_char_p]
+        tu = load_tu(F)
+        T = {'body': tu.enum_consts['mjOBJ_BODY'], 'geom': tu.enum_consts['mjOBJ_GEOM'], 'site': tu.enum_consts['mjOBJ_SITE']}
+        rnd = random.Random(int(os.environ.get('VERIF_SEED', '0') or 0))
+        runs = 0
+        for trial in range(60):
+            counts = {'body': rnd.randint(1, 4), 'geom': rnd.randint(0, 12), 'site': rnd.randint(0, 5)}
+            pool = ['a', 'ab', 'abc', 'arm', 'arm_', 'arm_1', 'arm_12', 'link', 'link_0', 'link_01', 'w', 'world', 'x' * 20, 'b', 'ba']
+            names = {}
+            for t, n in counts.items():
+                chosen = rnd.sample(pool, min(n, len(pool)))
+                names[t] = [chosen[i] if (i < len(chosen) and rnd.random() < 0.8) else '' for i in range(n)]
+            blob = b'model\0'
+            adr = {}
+            for t in ('body', 'geom', 'site'):
+                adr[t] = []
+                for nm in names[t]:
+                    adr[t].append(len(blob))
+                    blob += nm.encode() + b'\0'
+            if not lib.vf_make(counts['body'], counts['geom'], counts['site'], len(blob)):
+                return {'reproduced': False, 'error': 'harness model could not be made'}
+            ctypes.memmove(lib.vf_names(), blob, len(blob))
+            mp = lib.vf_map()
+            for k in range(lib.vf_nmap()):
+                mp[k] = -1
+            start = 0
+            for t in ('body', 'geom', 'site'):          # construction order of the first three regions (joints: none)
+                size = 2 * counts[t]
+                a = lib.vf_adr(T[t])
+                for i, nm in enumerate(names[t]):
+                    a[i] = adr[t][i]
+                    if nm:
+                        j = lib.vf_hash(nm.encode(), size)
+                        while mp[start + j] != -1:
+                            j = (j + 1) % size
+                        mp[start + j] = i
+                start += size
+            for t in ('body', 'geom', 'site'):
+                for i, nm in enumerate(names[t]):
+                    runs += 1
+                    got = lib.vf_id2name(T[t], i)
+                    if (got is None) != (nm == '') or (got is not None and got.decode() != nm):
+                        return {'reproduced': True, 'name': 'id2name', 'input': {'names': names, 'type': t, 'id': i}, 'observed': repr(got), 'expected': nm or None}
+                    if nm and lib.vf_name2id(T[t], nm.encode()) != i:
+                        return {'reproduced': True, 'name': 'name2id_inverts_id2name', 'input': {'names': names, 'type': t, 'query': nm},
+                                'observed': lib.vf_name2id(T[t], nm.encode()), 'expected': i}
+                for q in pool + ['', 'ar', 'arm_123', 'lin', 'nosuch']:
+                    want = names[t].index(q) if (q and q in names[t]) else -1
+                    got = lib.vf_name2id(T[t], q.encode())
+                    runs += 1
+                    if got != want:
+                        return {'reproduced': True, 'name': 'name2id_of_a_string_that_names_no_object', 'input': {'names': names, 'type': t, 'query': q},
+                                'observed': got, 'expected': want}
+                for bad in (-1, counts[t], counts[t] + 5):
+                    if lib.vf_id2name(T[t], bad) is not None:
+                        return {'reproduced': True, 'name': 'id2name_out_of_range', 'input': {'type': t, 'id': bad}, 'observed': 'non-NULL'}
+        return {'reproduced': False, 'cases_run': runs}
+    finally:
+        native.cleanup(d)
+
+
 def main():
     chk = Check('C34')
+    chk.native_fallback = native_contract_run
     C = name.contracts()
     chk.unit(F, '_getnumadr', C, 'math', 'fp')
     chk.unit(F, 'mj_hashString', C, 'math', 'fp')
@@ -27,6 +137,16 @@ def main():
         if tname in name.TYPE_ARRAY:
             c3 = dict(base, mj_name2id=name.name2id(tname, found=True), mj_hashString=name.HASH_CALL_NAMED)
             chk.unit(F, 'mj_name2id', c3, 'math', 'fp', prefix='[type=%s,found]' % tname, fixed={'type': v})
+    import time
+    from vlib.report import run_isolated
+    t0 = time.time()
+    r = run_isolated(lambda n, m, o: native_contract_run([]), '', None, None, timeout=600, crash_is_failure=True)
+    chk.bounded.append({'what': 'real compiled mj_name2id / mj_id2name on models whose name table is built like mjCModel::CopyNames builds it',
+                        'bound': '60 seeded random models (<= 4 bodies, 12 geoms, 5 sites, names with shared prefixes, empty names), every id and ~20 query strings per type',
+                        'result': r, 'wall_s': round(time.time() - t0, 1), 'counted_as_proved': False})
+    if r and r.get('reproduced'):
+        chk.native_fallback = None
+        chk.external('bounded/native_contract_run', False, 'native(bounded)', time.time() - t0, detail=str(r)[:300], model=r)
     chk.assumptions |= {
         'the per-type regions of names_map follow the order of the namelist(...) calls in mjCModel::CopyNames (extracted from src/user/user_model.cc on every run); nnames_map == 2 * (number of nameable objects)',
         'table invariant for the inverse law (requires of the [found] units): what namelist() in user_model.cc builds by linear probing (C++ template over std::vector, not verified); names unique within a type',
